@@ -110,6 +110,34 @@ CHECKS["C09"] = ("model_checking",
     "TLC; recording wrappers around IntervalSlicer.slice_, Distribution.fit, DependenceFunction.fit (masks bound to the fitted data by FitDataAreMaskedRows); MLE estimates of permuted data "
     "compared at 2e-3 (Nelder-Mead), least squares at 1e-6; known finding: PointsPerIntervalSlicer with tied conditioning values",
     "DESIGN.md §4 C09")
+CHECKS["C01"] = ("model_checking",
+    "TLC model checks the inverse-Rosenblatt chain (Rosenblatt.tla) for every conditional_on structure up to 4 dimensions over abstract monotone quantile maps; TLC-chosen configurations are built from the shipped families, IFORM/ISORM contours computed and every point mapped back and judged by TLC (Trace_C01.tla)",
+    "The structural half (which column conditions which variable, order of computation) is finite: all structures for n=2,3,4 incl. inadmissible ones, lattice quantile maps, mutation 'reads the wrong "
+    "column' must violate InverseRosenblatt. The numeric half is judged per contour point of real models (371 models quick / several thousand thorough): RadiusIsBeta, BetaIsRef (independent "
+    "normal / chi-square quantiles), Count, DirectionsDistinct, AnglesEquallySpaced, MaxIsMarginalQuantile and ProbeColumn (families whose location identifies the conditioning column).",
+    "TLC; the map back uses the model's own distributions' cdf with the declared structure in the driver's loop; Phi^-1 from statistics.NormalDist; chi-square quantile by bisection on closed forms; tolerances in spec/RosenblattOps.tla",
+    "DESIGN.md §4 C01")
+CHECKS["C06"] = ("model_checking",
+    "TLC model checks factorisation, orthant sums, marginal sums and the nquad argument re-ordering on a lattice model (Rosenblatt.tla, pdf mode); real models' pdf / cdf / marginal_* are compared with independently composed products and 1-D quadratures and judged by TLC (Trace_C06.tla)",
+    "Factorises / ReorderIsInverse / MarginalIsSumOverOthers are exact finite statements on the lattice model for all structures n<=3 (wrong-column and dropped-argsort mutations must violate). "
+    "On real models: pdf vs the driver's product of the distributions' pdfs for 8 input kinds (KindsAgree incl. integer input), NonNeg, cdf / marginal_pdf / marginal_cdf vs 1-D quadrature over "
+    "conditional cdfs (exploration-strength, few points: nquad costs seconds to minutes per point), total mass, marginal_cdf(marginal_icdf(p)) within the DKW radius.",
+    "TLC; scipy.integrate.quad as independent 1-D route; random models for integrals restricted to smooth bounded densities (stated); known finding: quadrature over (0,inf) loses narrow far mass",
+    "DESIGN.md §4 C06")
+CHECKS["C07"] = ("model_checking",
+    "TLC model checks the RNG stream model (RngStreams.tla) and the row-wise sampling chain (Rosenblatt.tla, sample mode); TLC-emitted draw histories are replayed on real distributions/models and the equality pattern of sample digests is judged by TLC; PIT / DKW clauses judged by TLC (Trace_C07.tla)",
+    "Reproducibility is a statement about histories of draws with random_state in {None, seed a, seed b, generator}: all histories up to length 3 are enumerated (mutations seed ignored / generator "
+    "not advanced must violate) and replayed; bit-for-bit equality is judged on digest numbers. Distribution agreement is exploration-strength: PIT values with the declared structure, KS "
+    "distance overall and within 8 bins of the conditioning value, DKW inequality at 1e-12 in integer arithmetic, shapes and sizes 1..1e6.",
+    "TLC; DKW bound; von Mises compared modulo 2 pi with kappa <= 4",
+    "DESIGN.md §4 C07")
+CHECKS["C19"] = ("model_checking",
+    "TLC model checks the ownership rules over all histories of new/fit/eval on two models (Purity.tla, three deviations must violate), emits the histories; a seeded subset is replayed on models from the six predefined getters with full object-graph fingerprints after every operation, judged by TLC (Trace_C19.tla)",
+    "Purity and absence of shared state are statements about histories: every history up to length 5-6 over two models is explored against the rules (shared dependence function, fit writes the "
+    "template, caching evaluation must violate). 60 (quick) / 700 (thorough) emitted histories are executed with 15 evaluation kinds; after each operation every mutable object reachable from "
+    "every model and every caller array is fingerprinted by bit pattern: EvalIsPure, InputsUntouched, FitIsLocal, TemplateUntouched, FitWritesOnlyFittedState, Repeatable, FreshGraphsDisjoint.",
+    "TLC; the fingerprint walk (plain functions treated as immutable; TransformedModel._sample cache excluded); global numpy RNG re-seeded before each evaluation",
+    "DESIGN.md §4 C19")
 
 NOT_YET = {}
 
